@@ -22,6 +22,10 @@ static inline float u2f(uint32_t u) { float f; memcpy(&f, &u, 4); return f; }
 static inline uint64_t d2u(double d) { uint64_t u; memcpy(&u, &d, 8); return u; }
 static inline double u2d(uint64_t u) { double d; memcpy(&d, &u, 8); return d; }
 
+// Children of an item read straight from the public struct layout (data.h), WITHOUT calling any library getter:
+// the harness must be able to enumerate a tree without 'warming up' lazily computed state inside it.
+void raw_children(const cbor_item_t* it, std::vector<cbor_item_t*>& out);
+
 // All allocator blocks an item owns directly (item struct, data buffer, chunk table), in a fixed order.
 void impl_owned_blocks(const cbor_item_t* it, std::vector<const void*>& out);
 // ... and recursively for the whole tree (each node once, even if shared)
